@@ -12,6 +12,7 @@ import (
 	"math/bits"
 	"sort"
 	"strings"
+	"unicode/utf8"
 	"unsafe"
 
 	"github.com/cespare/xxhash/v2"
@@ -447,6 +448,29 @@ func init() {
 	reg("errors.Is", func(fr *frame, args []value) value { return fr.m.errorsIs(fr, args[0].(iface), args[1].(iface)) })
 	reg("errors.As", func(fr *frame, args []value) value { return fr.m.errorsAs(fr, args[0].(iface), args[1].(iface)) })
 
+	// encoding/json: only Encoder.Encode of a string is modelled (RFC 8259 string encoding as Go's
+	// encoder does it, followed by a newline); everything else in the package is unsupported.
+	reg("(*encoding/json.Encoder).Encode", func(fr *frame, args []value) value {
+		enc := args[0].(*value)
+		et := mustDeref(fr.fn.Signature.Recv().Type())
+		st := (*enc).(structure)
+		w := st[structFieldIndex(et, "w")]
+		escHTML, _ := st[structFieldIndex(et, "escapeHTML")].(bool)
+		v := args[1].(iface)
+		if v.t == nil {
+			unsupported("json.Encoder.Encode(nil)")
+		}
+		if b, ok := v.t.Underlying().(*types.Basic); !ok || b.Kind() != types.String {
+			unsupported("json.Encoder.Encode of %s (only strings are modelled)", v.t)
+		}
+		out := fr.m.jsonEncodeString(fr, strBytes(v.v), escHTML)
+		out = append(out, uint8('\n'))
+		wi := w.(iface)
+		f := fr.m.methodOf(wi.t, "Write")
+		r := fr.m.callSSA(fr, token.NoPos, f, []value{wi.v, out}, nil).(tuple)
+		return r[1]
+	})
+
 	// gjson / jsonparser unsafe helpers
 	reg("github.com/tidwall/gjson.fillIndex", func(fr *frame, args []value) value {
 		js := args[0]
@@ -501,6 +525,111 @@ func init() {
 
 	registerSync(reg)
 	registerFmt(reg)
+}
+
+// jsonEncodeString: Go's encoding/json string encoding over possibly symbolic bytes (forking per
+// byte class; the common class — printable ASCII other than quote and backslash — stays symbolic).
+func (m *Machine) jsonEncodeString(fr *frame, b []value, escapeHTML bool) []value {
+	const hex = "0123456789abcdef"
+	tt := m.tt
+	out := []value{uint8('"')}
+	lit := func(s string) {
+		for i := 0; i < len(s); i++ {
+			out = append(out, s[i])
+		}
+	}
+	for i := 0; i < len(b); i++ {
+		e := b[i]
+		c, conc := e.(uint8)
+		if !conc {
+			t := m.term(e)
+			is := func(x byte) bool { return fr.branch(tt.Eq(t, tt.Const(uint64(x), 8))) }
+			switch {
+			case is('"'):
+				c, conc = '"', true
+			case is('\\'):
+				c, conc = '\\', true
+			case is('\n'):
+				c, conc = '\n', true
+			case is('\r'):
+				c, conc = '\r', true
+			case is('\t'):
+				c, conc = '\t', true
+			case fr.branch(tt.Bin(OpULt, t, tt.Const(0x20, 8))):
+				// other control characters: \u00XX with symbolic hex digits
+				lit("\\u00")
+				hi := tt.Bin(OpLShr, t, tt.Const(4, 8))
+				lo := tt.Bin(OpBvAnd, t, tt.Const(0xf, 8))
+				hb := make([]value, 16)
+				for k := 0; k < 16; k++ {
+					hb[k] = hex[k]
+				}
+				out = append(out, mkval(m.selectTerm(hb, hi), types.Uint8), mkval(m.selectTerm(hb, lo), types.Uint8))
+				continue
+			case fr.branch(tt.Bin(OpULt, t, tt.Const(0x80, 8))):
+				if escapeHTML && (is('<') || is('>') || is('&')) {
+					unsupported("json escapeHTML on symbolic byte")
+				}
+				out = append(out, e)
+				continue
+			default:
+				unsupported("json encoding of symbolic non-ASCII byte")
+			}
+		}
+		switch {
+		case c == '"':
+			lit("\\\"")
+		case c == '\\':
+			lit("\\\\")
+		case c == '\n':
+			lit("\\n")
+		case c == '\r':
+			lit("\\r")
+		case c == '\t':
+			lit("\\t")
+		case c == '\b':
+			lit("\\b")
+		case c == '\f':
+			lit("\\f")
+		case c < 0x20:
+			lit("\\u00")
+			out = append(out, hex[c>>4], hex[c&0xf])
+		case c < 0x80:
+			if escapeHTML && (c == '<' || c == '>' || c == '&') {
+				lit("\\u00")
+				out = append(out, hex[c>>4], hex[c&0xf])
+			} else {
+				out = append(out, c)
+			}
+		default:
+			// concrete non-ASCII: decode one rune natively
+			j := i
+			var buf []byte
+			for j < len(b) && j < i+4 {
+				cb, ok := b[j].(uint8)
+				if !ok {
+					break
+				}
+				buf = append(buf, cb)
+				j++
+			}
+			r, size := utf8.DecodeRune(buf)
+			if r == utf8.RuneError && size == 1 {
+				lit("\\ufffd")
+			} else if r == 0x2028 || r == 0x2029 {
+				lit("\\u202")
+				out = append(out, hex[r&0xf])
+				i += size - 1
+			} else {
+				for k := 0; k < size; k++ {
+					out = append(out, buf[k])
+				}
+				i += size - 1
+			}
+		}
+	}
+	out = append(out, uint8('"'))
+	return out
 }
 
 type digestKey struct{ p *value }
